@@ -124,6 +124,9 @@ func vReadmeOps() []vOp {
 		{q: `query($j: JSON) { me { tag(meta: $j) phone } }`, vars: func() map[string]interface{} {
 			return map[string]interface{}{"j": map[string]interface{}{"a": []interface{}{1, "x"}}}
 		}},
+		// id selected by the client next to a fragment on the same object
+		{q: `{ me { id ...F } } fragment F on Human { name phone }`},
+		{q: `{ getHumans { ... on Human { phone friends { ...G id } } id } } fragment G on Human { phone }`},
 		// the same object field selected twice: the selections merge
 		{q: `{ me { best { name } best { phone } } }`},
 		{q: `{ me { best { id } b: best { name } best { phone } b: best { phone } } }`},
